@@ -234,7 +234,8 @@ class ModelCompiler:
         """Add defined ranges to model."""
         for name in self.defined_names:
             cell_address = self.defined_names[name]
-            cell_address = cell_address.replace('$', '')
+            sheet_str, sep, coord = cell_address.rpartition('!')
+            cell_address = sheet_str + sep + coord.replace('$', '')
             if cell_address.count('!') == 1:
                 sheet_str, coord = cell_address.rsplit('!', 1)
                 cell_address = f'{utils.resolve_sheet(sheet_str)}!{coord}'
